@@ -234,7 +234,7 @@ class ArgumentRemover(_ArgumentChanger):
 
     def change_argument_mapping(self, definition_info, mapping):
         if self.index < len(definition_info.args_with_defaults):
-            name = definition_info.args_with_defaults[0]
+            name = definition_info.args_with_defaults[self.index][0]
             if name in mapping.param_dict:
                 del mapping.param_dict[name]
 
